@@ -85,7 +85,7 @@ def gen_sami_multi(rng, tag):
 
 def gen_multi_set(rng, tag):
     n = rng.choice([1, 2, 2, 3, 4])
-    langs = rng.sample(['en-US', 'en', 'fr', 'de', 'es', 'pt-BR', 'it', 'ja'], n)
+    langs = rng.sample(['en-US', 'en', 'fr', 'de', 'es', 'pt-BR', 'it', 'ja', 'fi', 'fil', 'est', 'eng'], n)
     pool = sorted({capsets.instant(rng, below_h=rng.choice([2, 24]), grid=1000) for _ in range(10)})
     spec = {'langs': [], 'styles': None, 'layout': None}
     for li, lang in enumerate(langs):
@@ -130,7 +130,7 @@ def cases(ctx):
         if r < 0.35:
             spec = gen_multi_set(rng, tag)
             langs = [l['lang'] for l in spec['langs']]
-            force = rng.choice(['', '', rng.choice(langs), 'xx'])
+            force = rng.choice(['', '', rng.choice(langs), 'xx', rng.choice(langs).upper(), rng.choice(langs).lower()])
             yield {'kind': 'dfxp-write', 'set': spec, 'force': force}
         elif r < 0.7:
             yield {'kind': 'sami-write', 'set': gen_multi_set(rng, tag)}
